@@ -43,6 +43,28 @@ func AddressingCorpus() []*Scenario {
 			}
 		}
 	}
+	// inbox: forwarding to an owned collection that has no members (no items member at all / an empty one),
+	// alone and next to one that has members
+	for ci, c := range colls {
+		for _, shape := range []string{"no-items-member", "empty-items"} {
+			c, shape, other := c, shape, colls[1-ci]
+			empty := func(a *ap.App) {
+				typ, member := "Collection", "items"
+				if c == OCol1 {
+					typ, member = "OrderedCollection", "orderedItems"
+				}
+				d := Doc(typ, c, "totalItems", 0)
+				if shape == "empty-items" {
+					d[member] = L{}
+				}
+				a.PutDoc(d)
+			}
+			for ai, to := range []interface{}{c, L{c, other}, L{other, c}} {
+				s = append(s, &Scenario{Name: fmt.Sprintf("addr/forward-empty-collection-%s-%s-%d", shortID(c), shape, ai), Kind: ap.Both, Entry: "PostInbox", URL: inbox(Alice),
+					Body: Doc("Create", RAct, "actor", Carol, "to", to, "object", rnote), Tweak: empty})
+			}
+		}
+	}
 	// inbox: an owned collection that is also the reply value examined by the forwarding search
 	for _, link := range []string{"object", "target", "tag", "inReplyTo"} {
 		for _, c := range colls {
